@@ -131,3 +131,7 @@ pub fn partition_segment_deserialize(data: &[u8]) -> Result<Vec<Column>, String>
         .map(|s| s.columns)
         .map_err(|e| e.to_string())
 }
+
+pub fn metastore_serialize(ms: &crate::disk_store::meta_store::MetaStore) -> Vec<u8> {
+    ms.serialize(&mut crate::observability::SimpleTracer::default())
+}
